@@ -30,7 +30,9 @@ MPairs(p) == LET S == Mont(p) \ { <<>> }
                 \cup { <<m, BAdd(m, <<1>>)>> : m \in { x \in S : BLess(BAdd(x, <<1>>), p) } }
 \* carry-class families for the interleaved sum of products (C12): Montgomery residues just below p, and small ones
 HiRes(p) == { BSub(p, N(t)) : t \in 1..48 } \cup { BSub(p, Pad(<<>>, k) \o <<1>>) : k \in {1, 2, 4, 8, 16, 24, 30} }
-LoRes(p) == { N(t) : t \in 1..48 } \cup { Pad(<<>>, k) \o <<1>> : k \in {1, 2, 4, 8, 16, 24, 30} }
+\* small residues and single-limb residues (the Montgomery representation is a tiny integer, or has one non-zero limb)
+SingleLimb(p) == { m \in { BNorm(Pad(<<>>, 8 * (i - 1)) \o Pad(v, 8)) : i \in 1..4, v \in UNION { LimbSet(p, j) : j \in 1..4 } } : m # <<>> /\ BLess(m, p) }
+LoRes(p) == { N(t) : t \in 1..48 } \cup { Pad(<<>>, k) \o <<1>> : k \in {1, 2, 4, 8, 16, 24, 30} } \cup SingleLimb(p)
 \* V-boundary families: operands for which the value V = (m_a m_b + k p) / 2^256 reached by the Montgomery reduction BEFORE
 \* its conditional subtraction sits on a boundary (p-1, p, p+1, 2^256-1, 2^256, 2^256 + small, 2^256 + 2^64k +- 1, 2^256 + 2^192 -+ 1).
 \* For a target v and a chosen m_a, m_b = v * 2^256 / m_a (mod p) gives V = v (mod p), i.e. V = v mod p or V = (v mod p) + p.
@@ -46,8 +48,20 @@ VPairs(p) == { << s, BMulMod(BMulMod(BMod(v, p), BMod(Two256, p), p), BModInvPri
 SqSeeds(p) == { BMulMod(BMod(v, p), BMod(Two256, p), p) : v \in VTargets(p) \cup { BAdd(Two256, N(t)) : t \in 13..60 } }
 VSquares == LET qr == { c \in SqSeeds(Q) : FQ!FIsQR(c) /\ c # <<>> }
             IN UNION { { FqSqrt(c), FQ!FNeg(FqSqrt(c)) } : c \in qr }
+\* quotient-pattern family: operand pairs whose Montgomery QUOTIENT k = -(m_a m_b) p^-1 mod 2^256 (the sequence of per-limb
+\* quotient digits the reduction loop computes) is prescribed: digits in {0, 1, 2^64-1, 2^63, general}, in particular zero digits
+\* at every position.  m_b = -k p m_a^-1 (mod 2^256) for an odd m_a; kept when m_b < p.
+InvModR(a) == LET it(x) == BMod(BMul(x, BSub(BAdd(Two256, <<2>>), BMod(BMul(a, x), Two256))), Two256)      \* Newton: x <- x (2 - a x)
+              IN it(it(it(it(it(it(it(it(<<1>>))))))))
+QDigits == { <<>>, <<1>>, BSub(Two64, <<1>>), Pad(<<>>, 7) \o <<128>>, FromBE(<<18, 52, 86, 120, 154, 188, 222, 241>>) }
+QPatterns == { k \in { BNorm(Pad(d1, 8) \o Pad(d2, 8) \o Pad(d3, 8) \o Pad(d4, 8)) : d1 \in QDigits, d2 \in QDigits, d3 \in QDigits, d4 \in QDigits } :
+               k # <<>> }
+OddSeeds == { N(3), BSub(Two64, <<59>>), BAdd(Two192, <<1, 1>>), BSub(Two255, <<19>>), FromBE(<<151, 3, 98, 241, 7, 201, 33, 119, 45, 12, 250, 66, 8, 19, 200, 5, 91, 77, 31, 2, 160, 14, 9, 101, 55, 240, 18, 6, 73, 99, 1, 37>>) }
+QPairs(p) == LET cand == { << s, BMod(BMul(BSub(Two256, BMod(BMul(k, p), Two256)), InvModR(s)), Two256) >> : k \in QPatterns, s \in OddSeeds }
+             IN { pr \in cand : BLess(pr[2], p) /\ BLess(pr[1], p) }
 Enc32(a) == ToBE(a, 32)
-PoolOf(p) == [ vpairs |-> SetToSeq({ << Enc32(OutOfMont(p, pr[1])), Enc32(OutOfMont(p, pr[2])) >> : pr \in VPairs(p) }),
+PoolOf(p) == [ qpairs |-> SetToSeq({ << Enc32(OutOfMont(p, pr[1])), Enc32(OutOfMont(p, pr[2])) >> : pr \in QPairs(p) }),
+               vpairs |-> SetToSeq({ << Enc32(OutOfMont(p, pr[1])), Enc32(OutOfMont(p, pr[2])) >> : pr \in VPairs(p) }),
                vsq |-> IF p = Q THEN SetToSeq({ Enc32(OutOfMont(p, m)) : m \in VSquares }) ELSE <<>>,
                hi |-> SetToSeq({ Enc32(OutOfMont(p, m)) : m \in HiRes(p) }),
                lo |-> SetToSeq({ Enc32(OutOfMont(p, m)) : m \in LoRes(p) }),
@@ -57,5 +71,6 @@ VARIABLE done
 Init == done = FALSE
 Next == ~done /\ done' = TRUE
           /\ JsonSerialize(IOEnv.OUT, [ Fq |-> PoolOf(Q), Fr |-> PoolOf(R) ])
+          /\ \A s \in OddSeeds : BMod(BMul(s, InvModR(s)), Two256) = <<1>>
           /\ PrintT(<<"GENPOOL", Cardinality(Vals(Q)), Cardinality(MPairs(Q)), Cardinality(Vals(R)), Cardinality(MPairs(R))>>)
 =============================================================================
